@@ -65,6 +65,14 @@ def rebind_programs():
         yield ("rebind-in-module", k1, k2), "let m = module {} => { %s %s };\nlet r = m{};" % (binders[k1]("x"), binders[k2]("x"))
 
 
+    # one name twice in a parameter list: the second parameter would rebind the first
+    for params, args in (("x, x", "1, 2"), ("x, y, x", "1, 2, 3"), ("y, x, x", "1, 2, 3")):
+        yield ("rebind-parameter", "defined-and-called", params.replace(", ", "-")), "let f = func (%s) => x;\nlet r = f(%s);" % (params, args)
+        yield ("rebind-parameter", "defined-only", params.replace(", ", "-")), "let f = func (%s) => x;" % params
+    yield ("rebind-parameter", "map-callback", "x-x"), "let r = map(func (x, x) => [x, x], {a = 1});"
+    yield ("rebind-parameter", "reduce-callback", "x-x"), "let r = reduce(func (x, x) => x, 0, [1]);"
+
+
 def submap(small, big):
     bd = dict(big[1])
     for n, v in small[1]:
